@@ -12,7 +12,7 @@
 //!   `ORACLE-FAIL\t<what>\t<detail>\t<source>`   (implementation-level oracle, independent of the model)
 //!   `STATS\t...`
 //!
-//! usage: c05 gen <n> | text <lang> <file> | replay-src <lang> <file>
+//! usage: c05 gen <n> [every] [start] | fixed | one <tag>
 use std::collections::{BTreeMap, BTreeSet};
 use std::fmt::Write as _;
 use truth::{ast, llir, Game, RegId};
@@ -700,11 +700,12 @@ impl<'a> Gen<'a> {
 // ---------------------------------------------------------------------------------------------
 // source text
 
-struct Printer<'a> { lang: &'a Lang, sub: &'a Sub, mentions: BTreeSet<i32>, names: &'a [String] }
+struct Printer<'a> { lang: &'a Lang, sub: &'a Sub, mentions: BTreeSet<i32>, mentions_plain: BTreeSet<i32>, in_switch: bool, names: &'a [String] }
 
 impl<'a> Printer<'a> {
     fn reg(&mut self, id: i32, ty: Ty, alias: bool, sigil: bool) -> String {
         self.mentions.insert(id);
+        if !self.in_switch { self.mentions_plain.insert(id); }
         let sg = match ty { Ty::I => "$", Ty::F => "%" };
         if alias { format!("{}{}", if sigil { sg } else { "" }, self.lang.alias[&id]) } else { format!("{}REG[{}]", sg, id) }
     }
@@ -719,7 +720,9 @@ impl<'a> Printer<'a> {
                 if *sigil || var.ty != *ty { format!("{}{}", if *ty == Ty::I { "$" } else { "%" }, var.name) } else { var.name.clone() }
             },
             Ex::Sw(cases, _) => {
+                self.in_switch = true;
                 let parts: Vec<String> = cases.iter().map(|c| c.as_ref().map_or(String::new(), |x| self.ex(x))).collect();
+                self.in_switch = false;
                 format!("({})", parts.join(" : "))
             },
             Ex::Bin(a, op, b) => format!("({} {} {})", self.ex(a), op, self.ex(b)),
@@ -856,7 +859,7 @@ fn gen_file(rng: &mut Rng, hist: &mut BTreeMap<&'static str, u64>) -> FileCase {
     FileCase { lang, subs, sigs }
 }
 
-fn render(fc: &FileCase) -> (String, Vec<BTreeSet<i32>>) {
+fn render(fc: &FileCase) -> (String, Vec<(BTreeSet<i32>, BTreeSet<i32>)>) {
     let names: Vec<String> = fc.subs.iter().map(|s| s.name.clone()).collect();
     let mut src = String::new();
     let mut mentions = vec![];
@@ -868,7 +871,7 @@ fn render(fc: &FileCase) -> (String, Vec<BTreeSet<i32>>) {
         LangKind::Ecl(_) => { src.push_str(&format!("#pragma mapfile \"{}\"\nscript timeline0 {{}}\n", mapfile_name(&fc.lang))); },
     }
     for sub in &fc.subs {
-        let mut p = Printer { lang: &fc.lang, sub, mentions: BTreeSet::new(), names: &names };
+        let mut p = Printer { lang: &fc.lang, sub, mentions: BTreeSet::new(), mentions_plain: BTreeSet::new(), in_switch: false, names: &names };
         let mut body = String::new();
         p.block(&sub.body, 1, &mut body);
         match &fc.lang.kind {
@@ -879,7 +882,7 @@ fn render(fc: &FileCase) -> (String, Vec<BTreeSet<i32>>) {
                 writeln!(src, "void {}({}) {{\n{}}}", sub.name, ps.join(", "), body).unwrap();
             },
         }
-        mentions.push(p.mentions);
+        mentions.push((p.mentions, p.mentions_plain));
     }
     (src, mentions)
 }
@@ -1146,7 +1149,7 @@ fn stream_regs(a: &LArg, out: &mut BTreeSet<i32>) {
     match a { LArg::Reg(r, _) => { out.insert(*r); }, LArg::Switch(cs) => for c in cs.iter().flatten() { stream_regs(c, out) }, _ => {} }
 }
 
-fn oracle(lang: &Lang, sub: &Sub, stream: &[LStmt], defs: &[(u32, Ty)], mentions: &BTreeSet<i32>, obs: &OSub) -> Vec<String> {
+fn oracle(lang: &Lang, sub: &Sub, stream: &[LStmt], defs: &[(u32, Ty)], mentions: &BTreeSet<i32>, mentions_plain: &BTreeSet<i32>, obs: &OSub) -> Vec<String> {
     let mut fails = vec![];
     let locals = match &obs.locals { Some(l) => l, None => return fails };
     let params = param_regs(lang, sub);
@@ -1165,7 +1168,8 @@ fn oracle(lang: &Lang, sub: &Sub, stream: &[LStmt], defs: &[(u32, Ty)], mentions
                 let ty = defs.iter().find(|x| x.0 == *d).map(|x| x.1).unwrap_or(Ty::I);
                 let pool = match ty { Ty::I => &lang.pool_i, Ty::F => &lang.pool_f };
                 if !pool.contains(&r) { fails.push(format!("outside-pool: register {} chosen for a {:?} local is not a general-use register of that type", r, ty)); }
-                if mentions.contains(&r) { fails.push(format!("mentioned: register {} chosen by the compiler is mentioned in the source", r)); }
+                if mentions_plain.contains(&r) { fails.push(format!("mentioned: register {} chosen by the compiler is mentioned in the source", r)); }
+                else if mentions.contains(&r) { fails.push(format!("mentioned-in-switch-only: register {} chosen by the compiler is mentioned in the source, only inside difficulty switches", r)); }
                 if pregs.contains(&r) { fails.push(format!("param: register {} chosen by the compiler is a parameter register of the sub", r)); }
                 if let Some((d2, _)) = live.iter().find(|(_, &r2)| r2 == r) { fails.push(format!("shared: register {} is held by live local #{} and given to local #{}", r, d2, d)); }
                 live.insert(*d, r);
@@ -1242,8 +1246,8 @@ fn lower_sub(fc: &FileCase, sub: &Sub) -> Lowered {
 fn coq_case(fc: &FileCase, lowered: &[Lowered], obs: &Observed) -> String {
     let pool = match &fc.lang.kind {
         LangKind::Test => format!("(PCustom {} {} {})", coq_zlist(&fc.lang.pool_i), coq_zlist(&fc.lang.pool_f), ANTI_TEST),
-        LangKind::Anm(g) => format!("(PGame LAnm {})", game_coq(*g)),
-        LangKind::Ecl(g) => format!("(PGame LEcl {})", game_coq(*g)),
+        LangKind::Anm(g) => format!("(PGame LAnm {} {} {})", game_coq(*g), coq_zlist(&fc.lang.pool_i), coq_zlist(&fc.lang.pool_f)),
+        LangKind::Ecl(g) => format!("(PGame LEcl {} {} {})", game_coq(*g), coq_zlist(&fc.lang.pool_i), coq_zlist(&fc.lang.pool_f)),
     };
     let subs: Vec<String> = fc.subs.iter().zip(lowered).zip(&obs.subs).map(|((sub, lw), os)| {
         let params: Vec<String> = sub.params.iter().map(|&v| format!("(Some {}%N, {})", sub.vars[v].def, cty(sub.vars[v].ty))).collect();
@@ -1255,7 +1259,7 @@ fn coq_case(fc: &FileCase, lowered: &[Lowered], obs: &Observed) -> String {
     format!("MkCase {} [{}] {}", pool, subs.join("; "), res)
 }
 
-fn run_case(fc: &FileCase, hist: &mut BTreeMap<&'static str, u64>) {
+fn run_case(fc: &FileCase, tag: &str, emit_case: bool, hist: &mut BTreeMap<&'static str, u64>) {
     let (src, mentions) = render(fc);
     let lowered: Vec<Lowered> = fc.subs.iter().map(|s| lower_sub(fc, s)).collect();
     let obs = run_impl(fc, &src);
@@ -1269,42 +1273,224 @@ fn run_case(fc: &FileCase, hist: &mut BTreeMap<&'static str, u64>) {
         if obs.n_anti_file > 0 { *hist.entry("impl_err_anti_file").or_insert(0) += 1; }
         if !obs.other_errors.is_empty() { *hist.entry("impl_err_other").or_insert(0) += 1; }
     }
+    let mut failed = false;
     for (((sub, lw), m), os) in fc.subs.iter().zip(&lowered).zip(&mentions).zip(&obs.subs) {
         let n_alloc = lw.stream.iter().filter(|s| matches!(s, LStmt::Alloc(_))).count();
         *hist.entry("regalloc_stmts").or_insert(0) += n_alloc as u64;
-        for f in oracle(&fc.lang, sub, &lw.stream, &lw.defs, m, os) {
-            println!("ORACLE-FAIL\t{}\t{} sub={}\t{}", f, lname, sub.name, flat);
+        if os.locals.is_some() {
+            *hist.entry("subs_allocated").or_insert(0) += 1;
+            // effective pool size of this sub: general-use registers the source does not name
+            let free_i = fc.lang.pool_i.iter().filter(|r| !m.0.contains(r)).count();
+            *hist.entry(match free_i { 0 => "free_int_pool_0", 1 => "free_int_pool_1", 2 => "free_int_pool_2", 3 => "free_int_pool_3", 4..=5 => "free_int_pool_4-5", _ => "free_int_pool_6+" }).or_insert(0) += 1;
+        }
+        for f in oracle(&fc.lang, sub, &lw.stream, &lw.defs, &m.0, &m.1, os) {
+            failed = true;
+            println!("ORACLE-FAIL\t{}\t{} sub={}\t{}\t{}", f, lname, sub.name, tag, flat);
+        }
+    }
+    // a scratch-forbidding instruction together with a register-allocated local/temporary must be a diagnostic
+    if fc.lang.anti_op.is_some() && obs.ok {
+        let has_anti = |lw: &Lowered| lw.stream.iter().any(|s| matches!(s, LStmt::Instr { op, .. } if Some(*op) == fc.lang.anti_op));
+        let has_alloc = |lw: &Lowered| lw.stream.iter().any(|s| matches!(s, LStmt::Alloc(_)));
+        let bad = if fc.lang.anti_file { lowered.iter().any(|l| has_anti(l)) && lowered.iter().any(|l| has_alloc(l)) }
+                  else { lowered.iter().any(|l| has_anti(l) && has_alloc(l)) };
+        if bad {
+            failed = true;
+            println!("ORACLE-FAIL\tanti-accepted: a scratch-forbidding instruction (ins_{}) and a register-allocated local were compiled without a diagnostic\t{}\t{}\t{}", fc.lang.anti_op.unwrap(), lname, tag, flat);
         }
     }
     if !obs.other_errors.is_empty() || obs.panicked {
         // the generator only produces programs that should reach register allocation; anything else
         // (a parse / type error, a panic) is reported so that it cannot silently shrink the coverage
-        println!("UNEXPECTED\t{}\t{}\t{}", lname, obs.diag.replace('\n', "\\n").chars().take(600).collect::<String>(), flat);
+        failed = true;
+        println!("UNEXPECTED\t{}\t{}\t{}\t{}", lname, obs.diag.replace('\n', "\\n").chars().take(600).collect::<String>(), tag, flat);
     }
-    println!("CASE\t{}\t{}\t{}", coq_case(fc, &lowered, &obs), lname, flat);
+    if emit_case || failed {
+        println!("CASE\t{}\t{}\t{}\t{}", coq_case(fc, &lowered, &obs), lname, tag, flat);
+    }
+}
+
+// ---------------------------------------------------------------------------------------------
+// hand-built scenarios (run on every tier): the reproduced defect, exact pool exhaustion, the
+// scratch-forbidding instructions, parameters
+
+struct B { vars: Vec<Var> }
+impl B {
+    fn new() -> B { B { vars: vec![] } }
+    fn var(&mut self, ty: Ty, is_param: bool) -> usize {
+        let def = self.vars.len() as u32;
+        self.vars.push(Var { name: format!("{}{}", if is_param { "p" } else { "v" }, def), ty, def, is_param });
+        self.vars.len() - 1
+    }
+}
+fn reg(id: i32, ty: Ty) -> Ex { Ex::Reg { id, ty, alias: false, sigil: true } }
+fn loc(v: usize, ty: Ty) -> Ex { Ex::Loc { v, ty, sigil: false } }
+
+fn fixed_cases() -> Vec<(String, FileCase)> {
+    let mut out: Vec<(String, FileCase)> = vec![];
+    let mut langs = vec![lang_test(vec![1000, 1001, 1002], vec![1010, 1011]), lang_test(vec![], vec![]), lang_test(vec![1000], vec![]),
+                         lang_anm(Game::Th12), lang_anm(Game::Th15)];
+    for g in [Game::Th06, Game::Th07, Game::Th08, Game::Th095] { langs.push(lang_ecl(g)); }
+    for lang in langs {
+        let lname = match &lang.kind { LangKind::Test => format!("test{}", lang.pool_i.len()), LangKind::Anm(g) => format!("anm{:?}", g), LangKind::Ecl(g) => format!("ecl{:?}", g) };
+        let one = |name: &str, subs: Vec<Sub>, sigs: Vec<SubSig>| (format!("fixed:{}:{}", lname, name), FileCase { lang: lang.clone(), subs, sigs });
+        let nosig = |n: usize| -> Vec<SubSig> { if lang.param_base.is_some() { (0..n).map(|i| SubSig { index: i, params: vec![] }).collect() } else { vec![] } };
+        // (a) the register the pool would hand out first is named only inside a difficulty switch (defect #3, f03)
+        if lang.has_switch && !lang.pool_i.is_empty() {
+            let mut b = B::new();
+            let x = b.var(Ty::I, false);
+            let first = lang.pool_i[0];
+            let body = vec![
+                St::Decl { v: x, init: Some(Ex::ImmI(7)) },
+                St::Ins { op: 903, args: vec![loc(x, Ty::I), Ex::Sw(vec![Some(reg(first, Ty::I)), Some(Ex::ImmI(5)), Some(Ex::ImmI(6)), Some(Ex::ImmI(7))], Ty::I)] },
+                St::Ins { op: 903, args: vec![loc(x, Ty::I), Ex::ImmI(1)] },
+            ];
+            out.push(one("reg-in-switch", vec![Sub { name: "sub0".into(), params: vec![], body, vars: b.vars }], nosig(1)));
+            // the same register also named outside a switch: must be avoided in every version
+            let mut b = B::new();
+            let x = b.var(Ty::I, false);
+            let body = vec![
+                St::Decl { v: x, init: Some(Ex::ImmI(7)) },
+                St::Ins { op: 903, args: vec![loc(x, Ty::I), Ex::Sw(vec![Some(reg(first, Ty::I)), None, Some(Ex::ImmI(6))], Ty::I)] },
+                St::Ins { op: 901, args: vec![reg(first, Ty::I)] },
+            ];
+            out.push(one("reg-in-switch-and-plain", vec![Sub { name: "sub0".into(), params: vec![], body, vars: b.vars }], nosig(1)));
+        }
+        // (b) exact exhaustion: name all but m general-use int registers, then hold m / m+1 locals
+        for m in 0..=lang.pool_i.len().min(3) {
+            for extra in 0..=1usize {
+                let mut b = B::new();
+                let mut body = vec![];
+                for &r in &lang.pool_i[m..] { body.push(St::Ins { op: 901, args: vec![reg(r, Ty::I)] }); }
+                let vs: Vec<usize> = (0..m + extra).map(|_| b.var(Ty::I, false)).collect();
+                for (k, &v) in vs.iter().enumerate() { body.push(St::Decl { v, init: Some(Ex::ImmI(k as i32)) }); }
+                for &v in &vs { body.push(St::Ins { op: 901, args: vec![loc(v, Ty::I)] }); }
+                out.push(one(&format!("exhaust-{}-{}", m, extra), vec![Sub { name: "sub0".into(), params: vec![], body, vars: b.vars }], nosig(1)));
+            }
+        }
+        // (c) registers released at the end of a block are reused, in stack order
+        if lang.pool_i.len() >= 2 {
+            let mut b = B::new();
+            let (v0, v1, v2, v3) = (b.var(Ty::I, false), b.var(Ty::I, false), b.var(Ty::I, false), b.var(Ty::I, false));
+            let body = vec![
+                St::Block(vec![St::Decl { v: v0, init: Some(Ex::ImmI(1)) }, St::Decl { v: v1, init: Some(Ex::ImmI(2)) },
+                               St::Ins { op: 903, args: vec![loc(v0, Ty::I), loc(v1, Ty::I)] }]),
+                St::Decl { v: v2, init: Some(Ex::ImmI(3)) }, St::Decl { v: v3, init: Some(Ex::ImmI(4)) },
+                St::Ins { op: 903, args: vec![loc(v2, Ty::I), loc(v3, Ty::I)] },
+            ];
+            out.push(one("reuse-after-scope", vec![Sub { name: "sub0".into(), params: vec![], body, vars: b.vars }], nosig(1)));
+        }
+        // (d) the scratch-forbidding instruction
+        if lang.anti_op.is_some() {
+            for with_local in [false, true] {
+                let mut b = B::new();
+                let mut body = vec![St::Anti];
+                if with_local && !lang.pool_i.is_empty() {
+                    let v = b.var(Ty::I, false);
+                    body.push(St::Decl { v, init: Some(Ex::ImmI(1)) });
+                }
+                body.push(St::Ins { op: 900, args: vec![] });
+                let mut subs = vec![Sub { name: "sub0".into(), params: vec![], body, vars: b.vars }];
+                if lang.anti_file {
+                    // a second sub that needs a temporary: the conflict is file-wide
+                    for temp in [false, true] {
+                        let mut s2 = subs.clone();
+                        let other = lang.other_i[0];
+                        let e = if temp { Ex::Bin(Box::new(reg(other, Ty::I)), '+', Box::new(Ex::ImmI(1))) } else { reg(other, Ty::I) };
+                        s2.push(Sub { name: "sub1".into(), params: vec![], body: vec![St::Ins { op: 901, args: vec![e] }], vars: vec![] });
+                        out.push(one(&format!("anti-{}-{}", with_local, temp), s2, nosig(2)));
+                    }
+                } else {
+                    out.push(one(&format!("anti-{}", with_local), subs.drain(..).collect(), nosig(1)));
+                }
+            }
+        }
+        // (e) parameters: named, used, next to locals and temporaries
+        if let Some((_, _, maxp)) = lang.param_base {
+            let mut b = B::new();
+            let tys: Vec<Ty> = (0..maxp).flat_map(|_| [Ty::I, Ty::F]).collect();
+            let ps: Vec<usize> = tys.iter().map(|&t| b.var(t, true)).collect();
+            let (vi, vf) = (b.var(Ty::I, false), b.var(Ty::F, false));
+            let body = vec![
+                St::Decl { v: vi, init: Some(Ex::Bin(Box::new(loc(ps[0], Ty::I)), '+', Box::new(Ex::ImmI(2)))) },
+                St::Decl { v: vf, init: Some(Ex::Bin(Box::new(loc(ps[1], Ty::F)), '*', Box::new(Ex::ImmF(0.5)))) },
+                St::Ins { op: 904, args: vec![Ex::Bin(Box::new(loc(vi, Ty::I)), '*', Box::new(loc(ps[0], Ty::I))), loc(vf, Ty::F)] },
+                St::Assign { dest: Dest::Loc { v: ps[0] }, op: "=", rhs: Ex::Bin(Box::new(loc(vi, Ty::I)), '-', Box::new(Ex::ImmI(1))) },
+            ];
+            let sigs = vec![SubSig { index: 0, params: tys.clone() }];
+            out.push(one("params", vec![Sub { name: "sub0".into(), params: ps, body, vars: b.vars }], sigs));
+        }
+        // (f) a register named only as a loop counter / in a condition
+        if !lang.pool_i.is_empty() {
+            let mut b = B::new();
+            let v = b.var(Ty::I, false);
+            let c = b.var(Ty::I, false);
+            let r0 = lang.pool_i[0];
+            let r1 = *lang.pool_i.last().unwrap();
+            let body = vec![
+                St::Times { clobber: Some(Dest::Reg { id: r0, ty: Ty::I, alias: false }), count: Ex::ImmI(3), counter: c,
+                            body: vec![St::Decl { v, init: Some(Ex::ImmI(0)) }, St::Ins { op: 901, args: vec![loc(v, Ty::I)] }] },
+                St::If { a: reg(r1, Ty::I), cmp: "<", b: Ex::ImmI(4), then: vec![St::Ins { op: 900, args: vec![] }], els: None },
+            ];
+            out.push(one("counter-and-condition", vec![Sub { name: "sub0".into(), params: vec![], body, vars: b.vars }], nosig(1)));
+        }
+    }
+    out
+}
+
+fn case_rng(seed: u64, index: u64) -> Rng {
+    let mut r = Rng::new(seed ^ 0xC05 ^ index.wrapping_mul(0x9E3779B97F4A7C15));
+    r.next_u64();
+    r
 }
 
 fn main() {
     let args: Vec<String> = std::env::args().collect();
     let mode = args.get(1).map(|s| s.as_str()).unwrap_or("gen");
     let seed = seed_from_env();
-    let mut rng = Rng::new(seed ^ 0xC05);
     let mut hist: BTreeMap<&'static str, u64> = BTreeMap::new();
     // the user mapfiles the generated sources load
     let wd = work_dir("c05");
     for l in [lang_anm(Game::Th12), lang_anm(Game::Th15), lang_ecl(Game::Th06), lang_ecl(Game::Th07), lang_ecl(Game::Th08), lang_ecl(Game::Th095)] {
-        std::fs::write(wd.join(mapfile_name(&l)), user_mapfile(&l)).unwrap();
+        // several harness processes share this directory: never truncate a file another one may be reading
+        let path = wd.join(mapfile_name(&l));
+        let text = user_mapfile(&l);
+        if std::fs::read_to_string(&path).ok().as_deref() != Some(text.as_str()) {
+            let tmp = wd.join(format!("{}.{}.tmp", mapfile_name(&l), std::process::id()));
+            std::fs::write(&tmp, &text).unwrap();
+            std::fs::rename(&tmp, &path).unwrap();
+        }
     }
     std::env::set_current_dir(&wd).unwrap();
     match mode {
+        // gen <n> <every> <start>: generated files #start..start+n through the oracle; every <every>-th also as a CASE line
         "gen" => {
-            let n: usize = args.get(2).and_then(|s| s.parse().ok()).unwrap_or(100);
-            for _ in 0..n {
+            let n: u64 = args.get(2).and_then(|s| s.parse().ok()).unwrap_or(100);
+            let every: u64 = args.get(3).and_then(|s| s.parse().ok()).unwrap_or(1).max(1);
+            let start: u64 = args.get(4).and_then(|s| s.parse().ok()).unwrap_or(0);
+            for i in start..start + n {
+                let mut rng = case_rng(seed, i);
                 let fc = gen_file(&mut rng, &mut hist);
-                run_case(&fc, &mut hist);
+                run_case(&fc, &format!("gen:{}:{}", seed, i), i % every == 0, &mut hist);
             }
         },
-        _ => { eprintln!("usage: c05 gen <n>"); std::process::exit(2); },
+        "fixed" => {
+            for (tag, fc) in fixed_cases() { run_case(&fc, &tag, true, &mut hist); }
+        },
+        // one <tag>: re-run exactly one stored input (tag = gen:<seed>:<index> or fixed:...)
+        "one" => {
+            let tag = args.get(2).cloned().unwrap_or_default();
+            let parts: Vec<&str> = tag.split(':').collect();
+            if parts.len() == 3 && parts[0] == "gen" {
+                let (sd, i): (u64, u64) = (parts[1].parse().unwrap_or(1), parts[2].parse().unwrap_or(0));
+                let mut rng = case_rng(sd, i);
+                let fc = gen_file(&mut rng, &mut hist);
+                run_case(&fc, &tag, true, &mut hist);
+            } else {
+                for (t, fc) in fixed_cases() { if t == tag { run_case(&fc, &t, true, &mut hist); } }
+            }
+        },
+        _ => { eprintln!("usage: c05 gen <n> [every] [start] | fixed | one <tag>"); std::process::exit(2); },
     }
     let h: Vec<String> = hist.iter().map(|(k, v)| format!("{}={}", k, v)).collect();
     println!("STATS\t{}", h.join(" "));
